@@ -34,6 +34,10 @@ ANSISTR_METHODS = {
     'apply_formatting_for_match': (['settings', 'any', 'int'], {}, None, True),
     'format_matching': (['str', 'settings'], {'regex': 'bool', 'match_case': 'bool', 'count': 'int'}, None, True),
     'unformat_matching': (['str', 'settings'], {'regex': 'bool', 'match_case': 'bool', 'count': 'int'}, None, True),
+    'unformat_matching#0': (['str'], {'regex': 'bool', 'match_case': 'bool', 'count': 'int'}, None, True),
+    'unformat_matching#none': (['str', 'none'], {}, None, True),
+    'format_matching#0': (['str'], {}, None, True),
+    'format_matching#2': (['str', 'settings', 'settings'], {'count': 'int'}, None, True),
     'clear_formatting': ([], {}, None, True),
     'capitalize': ([], {}, None, False),
     'casefold': ([], {}, None, False),
@@ -93,14 +97,14 @@ def wrapped_ansistr(c, tag):
 
 
 def z2_task(envr, item):
-    mname = item[0]
-    pos, kw, refname, mutator = ANSISTR_METHODS[mname]
+    pos, kw, refname, mutator = ANSISTR_METHODS[item[0]]
+    mname = item[0].split('#')[0]
 
     def body(c):
         ab.install(c)
         # every method of AnsiStr must be accounted for (a method added to the class makes this group undecided)
         have = set(envr.program.classes['AnsiStr'].members)
-        missing = have - set(ANSISTR_METHODS) - set(ANSISTR_OTHER)
+        missing = have - set(k.split('#')[0] for k in ANSISTR_METHODS) - set(ANSISTR_OTHER)
         if missing:
             raise sym.Unsupported('AnsiStr methods without a contract: %s' % sorted(missing))
         x, inner = wrapped_ansistr(c, 'w')
@@ -132,7 +136,7 @@ def z2_task(envr, item):
 
 RAISES_ANY = {'TypeError': None, 'ValueError': None, 'IndexError': None}
 GROUPS.append(Group('Z2', 'every AnsiStr method is its AnsiString counterpart on a private copy, wrapped; payload = rendering',
-                    ['C13', 'C08'], 'U', ['AnsiStr.' + m for m in sorted(ANSISTR_METHODS)], z2_items, z2_task,
+                    ['C13', 'C08'], 'U', sorted(set('AnsiStr.' + m.split('#')[0] for m in ANSISTR_METHODS)), z2_items, z2_task,
                     bounds='none: abstract receiver, every AnsiString method an uninterpreted state transformer; '
                     'arguments symbolic and typed', assumes=['V5', 'V3']))
 
